@@ -1201,10 +1201,7 @@ func (fr *Frame) indexVal(x *ssa.Index, st *State, reach Term) {
 	case *AV:
 		at := v.T.Underlying().(*types.Array)
 		fr.oblige("index", reach, mkAnd(enc.idxLe(enc.idxLit(0), i), enc.idxLt(i, enc.idxLit(at.Len()))), "index in range")
-		out := &FV{T: x.Type()}
-		for _, l := range v.L {
-			out.L = append(out.L, mkSelect(l, i))
-		}
+		out := enc.elemOfAV(v, i)
 		vc.sc.Assume(vc.wellTyped(out, st), "")
 		vc.sc.Assume(vc.ptrAllocated(out, st), "")
 		fr.vals[x] = out
@@ -1357,20 +1354,7 @@ func (fr *Frame) readPath(v Val, path []pathElem) Val {
 		case *SV:
 			v = x.F[pe.field]
 		case *AV:
-			at := x.T.Underlying().(*types.Array)
-			if isAggregate(at.Elem()) {
-				inner := &AV{T: at.Elem()}
-				for _, l := range x.L {
-					inner.L = append(inner.L, mkSelect(l, pe.idx))
-				}
-				v = inner
-				continue
-			}
-			out := &FV{T: at.Elem()}
-			for _, l := range x.L {
-				out.L = append(out.L, mkSelect(l, pe.idx))
-			}
-			v = out
+			v = fr.vc.enc.elemOfAV(x, pe.idx)
 		default:
 			fr.vc.unsupportedf("path into %T", v)
 		}
@@ -1389,35 +1373,12 @@ func (fr *Frame) updatePath(v Val, path []pathElem, nv Val) Val {
 		out.F[pe.field] = fr.updatePath(x.F[pe.field], path[1:], nv)
 		return out
 	case *AV:
+		def := func(t Term) Term { return fr.vc.sc.Def("arr", t) }
 		if len(path) != 1 {
-			at := x.T.Underlying().(*types.Array)
-			inner := &AV{T: at.Elem()}
-			for _, l := range x.L {
-				inner.L = append(inner.L, mkSelect(l, pe.idx))
-			}
-			ni, ok := fr.updatePath(inner, path[1:], nv).(*AV)
-			if !ok {
-				fr.vc.unsupportedf("nested path below an array element")
-			}
-			out := &AV{T: x.T}
-			for i, l := range x.L {
-				out.L = append(out.L, fr.vc.sc.Def("arr", mkStore(l, pe.idx, ni.L[i])))
-			}
-			return out
+			inner := fr.vc.enc.elemOfAV(x, pe.idx)
+			return fr.vc.enc.setElemOfAV(x, pe.idx, fr.updatePath(inner, path[1:], nv), def)
 		}
-		if iv, ok := nv.(*AV); ok {
-			out := &AV{T: x.T}
-			for i, l := range x.L {
-				out.L = append(out.L, fr.vc.sc.Def("arr", mkStore(l, pe.idx, iv.L[i])))
-			}
-			return out
-		}
-		fv := nv.(*FV)
-		out := &AV{T: x.T}
-		for i, l := range x.L {
-			out.L = append(out.L, fr.vc.sc.Def("arr", mkStore(l, pe.idx, fv.L[i])))
-		}
-		return out
+		return fr.vc.enc.setElemOfAV(x, pe.idx, nv, def)
 	}
 	fr.vc.unsupportedf("update path into %T", v)
 	return nil
